@@ -24,7 +24,7 @@ func init() {
 			ruleMergeIter(r)
 			ruleOpenLogContext(r)
 			ruleRecordOrigin(r)
-			ruleOpenLog(r)             // each container is read under its own id
+			ruleOpenLog(r) // each container is read under its own id
 		},
 	})
 }
